@@ -241,11 +241,27 @@ async fn run_session<T: RequestHandler>(
     socket: tokio::net::TcpStream,
     addr: SocketAddr,
     mut handler: TcpServerConnectionHandler,
-    decode: DecodeLevel,
+    mut decode: DecodeLevel,
     handlers: ServerHandlerMap<T>,
-    commands: tokio::sync::mpsc::Receiver<ServerCommand>,
+    mut commands: tokio::sync::mpsc::Receiver<ServerCommand>,
 ) {
-    match handler.handle(socket).await {
+    // a TLS handshake takes as long as the peer likes: keep honouring the command channel while
+    // it is in progress, so that eviction and shutdown close this connection as well
+    let result = {
+        let handshake = handler.handle(socket);
+        tokio::pin!(handshake);
+        loop {
+            tokio::select! {
+                result = &mut handshake => break result,
+                command = commands.recv() => match command {
+                    None | Some(ServerCommand::Shutdown) => return,
+                    Some(ServerCommand::ChangeDecoding(level)) => decode = level,
+                }
+            }
+        }
+    };
+
+    match result {
         Err(err) => {
             tracing::warn!("error from {}: {}", addr, err);
         }
